@@ -191,11 +191,6 @@ Proof.
     repeat (destruct H as [<-|H];
             [do 11 (destruct w as [|w]; [vm_compute; lia|]); vm_compute; lia|]). destruct H.
   - intros w. do 11 (destruct w as [|w]; [vm_compute; lia|]). vm_compute. lia.
-  - exists ex_rank. split.
-    + intros c H. vm_compute in H.
-      repeat (destruct H as [<-|H]; [intros w Hw; vm_compute in Hw;
-              repeat (destruct Hw as [<-|Hw]; [vm_compute; lia|]); destruct Hw|]). destruct H.
-    + intros k k' H1 H2. destruct (ex_isconst k H1) as [-> | ->], (ex_isconst k' H2) as [-> | ->]; reflexivity.
   - intros h H. vm_compute in H. repeat (destruct H as [<-|H]; [reflexivity|]). destruct H.
   - intros w p H. do 11 (destruct w as [|w]; [vm_compute in H; try discriminate; inversion H; subst; vm_compute; auto 12|]).
     vm_compute in H. discriminate.
